@@ -126,11 +126,27 @@ theorem simPapersGS_cons (d : Nat) (path : List Nat) (s : SimGS K) (rest : List 
 theorem simLoopGS_cons (d : Nat) (ds : List Nat) (s : SimGS K) :
     simLoopGS cfg (d :: ds) s = (simDayGS cfg d s).bind (simLoopGS cfg ds) := rfl
 
+theorem simDayGS0_mk (d : Nat) (w : World K) (t : GTreeS K) (papers : List (List Nat × SimGS K)) :
+    simDayGS0 cfg d (.mk w t papers) =
+      (simPapersGS0 cfg d papers w).bind fun r =>
+        (updRoot cfg d r.2).map fun w2 => SimGS.mk w2 t r.1 := by
+  rw [simDayGS0]
+
+theorem simPapersGS0_nil (d : Nat) (w : World K) : simPapersGS0 cfg d [] w = .ok ([], w) := by
+  rw [simPapersGS0]; rfl
+
+theorem simPapersGS0_cons (d : Nat) (path : List Nat) (s : SimGS K) (rest : List (List Nat × SimGS K)) (w : World K) :
+    simPapersGS0 cfg d ((path, s) :: rest) w =
+      (simDayGS0 cfg d s).bind fun s' =>
+        (simPapersGS0 cfg d rest { w with root := setPaperPx s'.world.price path w.root }).map fun r =>
+          ((path, s') :: r.1, r.2) := by
+  rw [simPapersGS0]
+
 theorem simRunGS_mk (c : K) (d0 : Nat) (ds : List Nat) (w0 : World K) (t : GTreeS K)
     (papers : List (List Nat × SimGS K)) :
     simRunGS cfg c (d0 :: ds) (.mk w0 t papers) =
       (opAdjust w0 [] c true true).bind fun w1 =>
-      (simPapersGS cfg d0 papers w1).bind fun r =>
+      (simPapersGS0 cfg d0 papers w1).bind fun r =>
       (updRoot cfg d0 r.2).bind fun w3 => simLoopGS cfg ds (.mk w3 t r.1) := rfl
 
 mutual
@@ -151,6 +167,24 @@ theorem simPapersGS_lift (d : Nat) : (ps : List (List Nat × SimG K)) → ∀ (w
     simp only [liftPapers_cons]
 end
 
+mutual
+/-- the first date: updating the lifted `SimG` (and its shadow copies) is the lifting of the updated `SimG` -/
+theorem simDayGS0_lift (d : Nat) : (s : SimG K) → simDayGS0 cfg d (liftSim s) = (simDayG0 cfg d s).map liftSim
+  | .mk w t papers => by
+    rw [liftSim_mk, simDayGS0_mk, simDayG0_mk, simPapersGS0_lift d papers w, map_bind'', PProgX.bind_map']
+    refine P09.bind_congr' _ fun r _ => ?_
+    rw [PProgX.map_map']
+    simp only [liftSim_mk]
+theorem simPapersGS0_lift (d : Nat) : (ps : List (List Nat × SimG K)) → ∀ (w : World K),
+    simPapersGS0 cfg d (liftPapers ps) w = (simPapersG0 cfg d ps w).map fun r => (liftPapers r.1, r.2)
+  | [], w => by rw [liftPapers_nil, simPapersGS0_nil, simPapersG0_nil]; rfl
+  | (q, s) :: rest, w => by
+    rw [liftPapers_cons, simPapersGS0_cons, simPapersG0_cons, simDayGS0_lift d s, map_bind'', PProgX.bind_map']
+    refine P09.bind_congr' _ fun s' _ => ?_
+    rw [liftSim_world, simPapersGS0_lift d rest, PProgX.map_map', PProgX.map_map']
+    simp only [liftPapers_cons]
+end
+
 theorem simLoopGS_lift : ∀ (ds : List Nat) (s : SimG K),
     simLoopGS cfg ds (liftSim s) = (simLoopG cfg ds s).map liftSim
   | [], s => rfl
@@ -168,7 +202,7 @@ theorem simRunGS_lift (c : K) (dates : List Nat) (s : SimG K) :
   | cons d0 ds =>
     rw [liftSim_mk, simRunGS_mk, simRunG_mk, PProgX.bind_map']
     refine P09.bind_congr' _ fun w1 _ => ?_
-    rw [simPapersGS_lift, map_bind'', PProgX.bind_map']
+    rw [simPapersGS0_lift, map_bind'', PProgX.bind_map']
     refine P09.bind_congr' _ fun r _ => ?_
     rw [PProgX.bind_map']
     refine P09.bind_congr' _ fun w3 _ => ?_
